@@ -13,7 +13,9 @@ Inductive case :=
 | CSlabel (pkg sp : str) (exp : option label)
 | CTip (l : label) (exp : str)
 | CSite (root pkg g : str) (exp_gen exp_src : option str)
-| CSiteSame (root pkg g : str) (exp : option str).
+| CSiteSame (root pkg g : str) (exp : option str)
+| CDep (pkg s : str) (exp : option str)
+| CFind (defs : list str) (pkg s : str) (exp_get exp_load : option str).
 
 Definition opt_eqb {A} (eqb : A -> A -> bool) (a b : option A) : bool :=
   match a, b with
@@ -50,6 +52,9 @@ Definition check_case (c : case) : bool :=
       opt_eqb str_eqb (site_gen root pkg g) eg && opt_eqb str_eqb (site_src root pkg g) es
   | CSiteSame root pkg g e =>
       opt_eqb str_eqb (site_gen root pkg g) e && opt_eqb str_eqb (site_src root pkg g) e
+  | CDep pkg s e => opt_eqb str_eqb (site_dep pkg s) e
+  | CFind defs pkg s eg el =>
+      opt_eqb str_eqb (site_get defs pkg s) eg && opt_eqb str_eqb (site_load_target defs s) el
   end.
 
 Definition mismatches (cs : list (N * case)) : list N :=
